@@ -31,6 +31,7 @@ func init() {
 			"golang.org/x/net/html re-parse of the output is the trusted observer; a marked element is counted by its unique data-m attribute",
 			"'the same element' = the same source element of the same file (however often its file is included, looped over or slotted); elements of different files or positions are distinct",
 			"a marked element is 'reached' when evaluation arrives at it, i.e. all enclosing v-if are true, its loop has at least one item, its component is included",
+			"in a component file whose first node is a <template> tag the engine takes that tag as the component's root and renders nothing that follows it in the file; marked elements written after it are not judged (counted under not-judged/after-the-root-template-of-a-component-file)",
 			"an element carrying both v-once and v-for over n>=1 items must be emitted at least once; exactly one copy is the expected outcome (iterations are instantiations of that element), one copy per iteration is tolerated and counted under not-judged/ (the statement does not exclude reading every iteration as an element of its own); zero copies or more than n are violations",
 			"v-once combined with a v-if on the same element is generated with render-constant conditions only (whether a false v-if consumes the 'first time' is not stated)",
 			"a marked element is judged only when the unmarked witness element next to it appears as often as the reference model says (otherwise the deviation is in loops/includes/conditions, not in v-once; counted under not-judged/)",
@@ -266,6 +267,13 @@ func (p *c16) Exec(ctx core.Ctx, cc any) core.Obs {
 			prev, hasPrev := first[pg.Name]
 			for _, k := range m.onceMs {
 				class := m.classFor(k, withLayouts)
+				if m.afterRoot[k] {
+					// a component file whose first node is a <template> tag: that tag is the
+					// component's root, what follows it in the file is not rendered at all
+					// (marked or not) - not a v-once matter
+					o.Cell("not-judged/after-the-root-template-of-a-component-file")
+					continue
+				}
 				g, reached := m.guard[k]
 				if !reached {
 					g = m.staticGuard[k]
